@@ -1,7 +1,193 @@
 import Cherab.Drv.Proto
-open Cherab.Drv
+import Cherab.Model.Repository
+import Cherab.Gen.RepoPaths
+open Cherab.Drv Cherab.Repository
 
-/-- C06 driver: not yet implemented (echo) -/
+/-!
+C06 driver: replays a history of repository calls on the model (`Cherab.Repository` instantiated with the generated
+tables `Cherab.Gen.RepoPaths.tables`).  Protocol (see harness/props/c06.py):
+
+  upd <UpdFn> <root> <input>            -> ok | <Error>
+  add <AddFn> <root> <n> {arg} <items>  -> ok | <Error>
+  ins <InstallFn> <root> <n> {input}    -> ok | <Error>
+  get <GetFn> <root> <n> {arg}          -> ok <n> {k <n> {hex} v <rate>} | <Error>
+  ls                                    -> files of the model file system, sorted
+  cat <path>                            -> content of one file: ok <n> {k <n> {hex} v <rate>} | missing
+  enc <level> <level>                   -> hex(encode_transition)
+  wf                                    -> the five well-formedness flags of the generated tables
+  reset                                 -> empty file system
+-/
+
+abbrev P := StateT (List String) (Except String)
+
+def tok : P String := do
+  match (← get) with
+  | [] => throw "eof"
+  | t :: ts => set ts; pure t
+
+def rep {α : Type} (n : Nat) (p : P α) : P (List α) := (List.range n).mapM (fun _ => p)
+
+def hexVal (c : Char) : Nat :=
+  if c.isDigit then c.toNat - '0'.toNat
+  else if 'a' ≤ c ∧ c ≤ 'f' then c.toNat - 'a'.toNat + 10
+  else c.toNat - 'A'.toNat + 10
+
+def unhexL : List Char → List Char
+  | a :: b :: t => Char.ofNat (hexVal a * 16 + hexVal b) :: unhexL t
+  | _ => []
+
+def unhex (s : String) : String := if s == "-" then "" else String.ofList (unhexL s.toList)
+
+def hexDigit (n : Nat) : Char := if n < 10 then Char.ofNat (n + '0'.toNat) else Char.ofNat (n - 10 + 'a'.toNat)
+
+def hex (s : String) : String :=
+  if s.isEmpty then "-" else String.ofList (s.toList.flatMap fun c => [hexDigit (c.toNat / 16), hexDigit (c.toNat % 16)])
+
+def pStr : P String := do return unhex (← tok)
+def pNat : P Nat := do return (← tok).toNat!
+def pInt : P Int := do return (← tok).toInt!
+
+def pLevel : P Level := do
+  let t ← tok
+  if t.startsWith "i" then return .int (t.drop 1).toString.toInt! else return .str (unhex (t.drop 1).toString)
+
+def pArg : P Arg := do
+  match ← tok with
+  | "S" => do
+    let e ← tok; let s ← pStr; let z ← pInt
+    return .sp ⟨e == "1", s, z⟩
+  | "I" => return .num (← pInt)
+  | "C" => return .str (← pStr)
+  | "T" => do let u ← pLevel; let l ← pLevel; return .tr u l
+  | t => throw s!"bad arg {t}"
+
+def pArgs : P (List Arg) := do rep (← pNat) pArg
+
+def pArr : P Arr := do
+  let nd ← pNat
+  let shape ← rep nd pNat
+  let n ← pNat
+  let data ← rep n pNat
+  return ⟨shape, data⟩
+
+def pRate : P Rate := do
+  rep (← pNat) (do let n ← pStr; let a ← pArr; return (n, a))
+
+def pItems : P (List (List Arg × Rate)) := do
+  rep (← pNat) (do let a ← pArgs; let r ← pRate; return (a, r))
+
+def pEntry : P FileEntry := do
+  let a ← pArgs
+  let i ← pItems
+  return ⟨a, i⟩
+
+def pInput : P UpdInput := do rep (← pNat) pEntry
+
+def pRoot : P (Option Path) := do
+  let t ← tok
+  if t == "-" then return none else return some [unhex t]
+
+def pUpd : P UpdFn := do
+  match ← tok with
+  | "ionisation" => return .ionisation | "recombination" => return .recombination
+  | "thermalCx" => return .thermalCx | "linePower" => return .linePower
+  | "continuumPower" => return .continuumPower | "cxPower" => return .cxPower | "pec" => return .pec
+  | "pecThermalCx" => return .pecThermalCx | "wavelength" => return .wavelength | "beamCx" => return .beamCx
+  | "beamStopping" => return .beamStopping | "beamPopulation" => return .beamPopulation
+  | "beamEmission" => return .beamEmission
+  | t => throw s!"bad update fn {t}"
+
+def pAdd : P AddFn := do
+  match ← tok with
+  | "ionisation" => return .ionisation | "recombination" => return .recombination
+  | "thermalCx" => return .thermalCx | "linePower" => return .linePower
+  | "continuumPower" => return .continuumPower | "cxPower" => return .cxPower
+  | "pecExcitation" => return .pecExcitation | "pecRecombination" => return .pecRecombination
+  | "pecThermalCx" => return .pecThermalCx | "wavelength" => return .wavelength | "beamCx" => return .beamCx
+  | "beamStopping" => return .beamStopping | "beamPopulation" => return .beamPopulation
+  | "beamEmission" => return .beamEmission
+  | t => throw s!"bad add fn {t}"
+
+def pGet : P GetFn := do
+  match ← tok with
+  | "ionisation" => return .ionisation | "recombination" => return .recombination
+  | "thermalCx" => return .thermalCx | "linePower" => return .linePower
+  | "continuumPower" => return .continuumPower | "cxPower" => return .cxPower
+  | "pecExcitation" => return .pecExcitation | "pecRecombination" => return .pecRecombination
+  | "pecThermalCx" => return .pecThermalCx | "wavelength" => return .wavelength | "beamCx" => return .beamCx
+  | "beamStopping" => return .beamStopping | "beamPopulation" => return .beamPopulation
+  | "beamEmission" => return .beamEmission
+  | t => throw s!"bad get fn {t}"
+
+def pInstall : P InstallFn := do
+  match ← tok with
+  | "adf11scd" => return .adf11scd | "adf11acd" => return .adf11acd | "adf11ccd" => return .adf11ccd
+  | "adf11plt" => return .adf11plt | "adf11prb" => return .adf11prb | "adf11prc" => return .adf11prc
+  | "adf12" => return .adf12 | "adf15" => return .adf15 | "adf21" => return .adf21
+  | "adf22bmp" => return .adf22bmp | "adf22bme" => return .adf22bme
+  | t => throw s!"bad install fn {t}"
+
+def fNats (l : List Nat) : String := " ".intercalate (l.map toString)
+
+def fArr (a : Arr) : String :=
+  s!"{a.shape.length} {fNats a.shape} {a.data.length} {fNats a.data}"
+
+def fVal (v : Val) : String :=
+  s!"{v.length} " ++ " ".intercalate (v.map fun (n, a) => s!"{hex n} {fArr a}")
+
+def fRes (r : Res) : String :=
+  match r.2 with
+  | none => "ok"
+  | some e => e.name
+
+def T := Cherab.Gen.RepoPaths.tables
+
+def strLe (a b : String) : Bool := a ≤ b
+
+def step (fs : FS) (ts : List String) : FS × String :=
+  let run : P (FS × String) := do
+    match ← tok with
+    | "upd" => do
+      let u ← pUpd; let root ← pRoot; let inp ← pInput
+      let r := update T u inp root fs
+      return (r.1, fRes r)
+    | "add" => do
+      let a ← pAdd; let root ← pRoot; let args ← pArgs; let items ← pItems
+      let r := add T a args items root fs
+      return (r.1, fRes r)
+    | "ins" => do
+      let i ← pInstall; let root ← pRoot; let n ← pNat; let inps ← rep n pInput
+      let r := install T i inps root fs
+      return (r.1, fRes r)
+    | "get" => do
+      let g ← pGet; let root ← pRoot; let args ← pArgs
+      match get T g args root fs with
+      | .error e => return (fs, e.name)
+      | .ok l =>
+        let body := l.map fun (k, v) => s!"k {k.length} " ++ " ".intercalate (k.map hex) ++ " v " ++ fVal v
+        return (fs, s!"ok {l.length} " ++ " ".intercalate body)
+    | "ls" => do
+      let ps := fs.map fun (p, _) => "/".intercalate p
+      let ps := (ps.toArray.qsort strLe).toList
+      return (fs, if ps.isEmpty then "-" else " ".intercalate (ps.map hex))
+    | "cat" => do
+      let p := (← pStr).splitOn "/"
+      match fs.read p with
+      | none => return (fs, "missing")
+      | some l =>
+        let body := l.map fun (k, v) => s!"k {k.length} " ++ " ".intercalate (k.map hex) ++ " v " ++ fVal v
+        return (fs, s!"ok {l.length} " ++ " ".intercalate body)
+    | "enc" => do
+      let u ← pLevel; let l ← pLevel
+      return (fs, hex (encodeTransition u l))
+    | "wf" =>
+      return (fs, " ".intercalate ([T.addMatches, T.getMatches, T.shapesOk, T.disjointOk, T.rootPassed].map fB))
+    | "reset" => return ([], "ok")
+    | t => throw s!"bad op {t}"
+  match run.run ts with
+  | .ok ((fs', out), _) => (fs', out)
+  | .error e => (fs, "protocol-error " ++ e)
+
 def main : IO UInt32 := do
-  loop (stateless fun ts => " ".intercalate ts) (← IO.getStdin) (← IO.getStdout) ()
+  loop step (← IO.getStdin) (← IO.getStdout) ([] : FS)
   return 0
